@@ -298,6 +298,21 @@ func main() {
 		{"NotAfter+1s", na.Add(time.Second)},
 		{"zero-time", time.Time{}},
 	}
+	// Instants far outside the range an int64 of nanoseconds since 1970 can hold (1678..2262): a
+	// verifier that folds the caller's time through such a count checks at another instant. mid ± 2^64
+	// ns fold back exactly into the validity window; years 1 and 9999 are the ends of what a textual
+	// timestamp can carry.
+	{
+		mid := nb.Add(na.Sub(nb) / 2)
+		const wrapSec, wrapNsec = 18446744073, 709551616 // 2^64 ns
+		times = append(times,
+			vtime{"mid+2^64ns", time.Unix(mid.Unix()+wrapSec, int64(mid.Nanosecond())+wrapNsec).UTC()},
+			vtime{"mid-2^64ns", time.Unix(mid.Unix()-wrapSec, int64(mid.Nanosecond())-wrapNsec).UTC()},
+			vtime{"mid+2*2^64ns", time.Unix(mid.Unix()+2*wrapSec, int64(mid.Nanosecond())+2*wrapNsec).UTC()},
+			vtime{"year-1", time.Date(1, 1, 2, 0, 0, 0, 0, time.UTC)},
+			vtime{"year-9999", time.Date(9999, 12, 30, 0, 0, 0, 0, time.UTC)},
+		)
+	}
 
 	ctx := output.NewContext(context.Background(), &output.Options{Quiet: true})
 	prodPolicy := abi.SnpPolicyToBytes(abi.SnpPolicy{SMT: true, MigrateMA: true})
